@@ -149,7 +149,8 @@ class C12(object):
     assumptions = ['leads are additive-precedence-safe expressions (no top-level comparison/conditional/bitwise '
                    'operator: probe class D13 not generated)',
                    'valuations use exactly representable values, so == is the comparison']
-    required_counters = ('addterm.post_evaluated', 'termlist.judged', 'insitu.addterm.post_evaluated')
+    required_counters = ('addterm.post_evaluated', 'termlist.judged', 'insitu.addterm.post_evaluated', 'sector.histories',
+                         'sector.rhs_replaced_mid_history')
 
     def n_cases(self, tier):
         return (15 if tier == 'quick' else 1500) + 1
@@ -227,6 +228,63 @@ class C12(object):
             if not self.judge(eq2, h, expected2, envs, exact2, rec, j, which='second equation sharing Term objects'):
                 return
 
+    def run_sector_history(self, h, rng, rec):
+        """The same histories driven through the Sector API that models use: AddVariable (leading expression),
+        AddTermToEquation, and - mid-history - SetEquationRightHandSide, which gives the variable a NEW leading
+        expression; terms added afterwards (including ones spelled like terms added before) must sum onto it."""
+        from sfc_models.models import Model, Country
+        from sfc_models.sector import Sector
+        from sfc_models.utils import LogicError
+        envs = [pow2_env(valuation(rng), rng)]
+        for _ in range(2):
+            e = valuation(rng)
+            envs.append(e if rng.random() < 0.5 else pow2_env(e, rng))
+        mod = Model()
+        sec = Sector(Country(mod, 'C1', 'C1'), 'S', 'S', has_F=False)
+        lead = h['lead'] if h['lead'] not in (None,) else ''
+        sec.AddVariable('v', 'desc', lead)
+        eq = sec.EquationBlock['v']
+        lead_src = lead if lead != '' else '0.0'
+        expected = [_eval(lead_src, e) for e in envs]
+        exact = [True, '/' not in lead_src, '/' not in lead_src]
+        if not self.judge(eq, h, expected, envs, exact, rec, -1, which='sector variable'):
+            return
+        n = len(h['terms'])
+        resets = {}
+        if n >= 2:
+            for _ in range(rng.choice([1, 1, 2])):
+                t = rng.choice(LEADS[:-1])
+                resets[rng.randrange(1, n)] = t.format(n=rng.choice(h['names']), m=rng.choice(h['names']), o=rng.choice(h['names']))
+        # terms after a reset repeat earlier spellings on purpose
+        terms = list(h['terms'])
+        for j in sorted(resets):
+            if j < n and rng.random() < 0.8:
+                terms[j] = terms[rng.randrange(0, j)]
+        for j, (text, sign, core) in enumerate(terms):
+            if j in resets:
+                new = resets[j]
+                sec.SetEquationRightHandSide('v', new)
+                src = new if new != '' else '0.0'
+                expected = [_eval(src, e) for e in envs]
+                exact = [True, '/' not in src, '/' not in src]
+                rec.count('sector.rhs_replaced_mid_history')
+                if not self.judge(sec.EquationBlock['v'], dict(h, resets=resets), expected, envs, exact, rec, j, which='sector variable after a new leading expression'):
+                    return
+            try:
+                sec.AddTermToEquation('v', text)
+            except (LogicError, SyntaxError, NotImplementedError) as e:
+                rec.violate('addterm_refused', {'history': h, 'at': j, 'err': repr(e), 'api': 'Sector.AddTermToEquation'})
+                return
+            rec.count('sector.addterm.calls')
+            for i, e in enumerate(envs):
+                expected[i] = expected[i] + sign * _eval(core, e)
+                if '/' in core and i > 0:
+                    exact[i] = False
+            if not self.judge(sec.EquationBlock['v'], dict(h, resets=resets, terms_used=[list(t) for t in terms]), expected, envs, exact, rec, j,
+                              which='sector variable'):
+                return
+        rec.count('sector.histories')
+
     def judge(self, eq, h, expected, envs, exact, rec, j, which='main'):
         rhs = eq.RHS()
         try:
@@ -294,7 +352,10 @@ class C12(object):
         for i in range(case['n']):
             if rng.random() < 0.7:
                 h = gen_history(rng)
-                self.run_history(h, rng, rec)
+                if i % 5 == 2:
+                    self.run_sector_history(h, rng, rec)
+                else:
+                    self.run_history(h, rng, rec)
                 if len(h['terms']) >= 2 or (h['lead'] and h['terms']):
                     keys.append(chash(h))
                 shapes['lead.' + h['lead_kind']] = shapes.get('lead.' + h['lead_kind'], 0) + 1
